@@ -48,7 +48,7 @@ def ingredients(draw: Any) -> dict[str, Any]:
     if mode == "text":
         sw["empty_literal"] = draw(st.integers(0, 5)) == 0
         sw["regex"] = draw(st.sampled_from(["guarded", "guarded", "none", "empty"]))
-    spec = draw(specgen.grammars(sw))
+    spec = draw(overlap_specs()) if draw(st.integers(0, 3)) == 0 else draw(specgen.grammars(sw))
     return {
         "spec": spec,
         "idx": draw(st.lists(st.integers(0, 10**6), min_size=4, max_size=25)),
@@ -57,21 +57,57 @@ def ingredients(draw: Any) -> dict[str, Any]:
     }
 
 
+@st.composite
+def overlap_specs(draw: Any) -> dict[str, Any]:
+    """One repeated nonterminal that is entered at several input offsets (shared by alternatives with prefixes that
+    are prefixes of each other); only the end of the word tells which entry was meant."""
+    unit = draw(st.sampled_from([["lit", "a"], ["lit", "a"], ["alt", [["lit", "a"], ["lit", "b"]]], ["lit", "aa"], ["nt", "u"]]))
+    kind = draw(st.sampled_from(["star", "star", "plus", "rep"]))
+    s_rhs = [kind, unit] if kind != "rep" else ["rep", unit, draw(st.integers(0, 2)), draw(st.integers(4, 7))]
+    k = draw(st.integers(2, 4))
+    if draw(st.integers(0, 3)) > 0:
+        # a chain of prefixes that are prefixes of each other, told apart only by the last letter
+        counts = draw(st.lists(st.integers(0, 4), min_size=k, max_size=k, unique=True))
+        pres = ["a" * c for c in sorted(counts)]
+        posts = list("xyzw"[:k])
+    else:
+        pres = [draw(st.sampled_from(["", "a", "aa", "aaa", "ab", "b"])) for _ in range(k)]
+        posts = [draw(st.sampled_from(["x", "y", "z", "", "a", "b"])) for _ in range(k)]
+    rules: list[Any] = []
+    if draw(st.booleans()):
+        alts = []
+        for pre, post in zip(pres, posts):
+            parts = ([["lit", pre]] if pre else []) + [["nt", "s"]] + ([["lit", post]] if post else [])
+            alts.append(["seq", parts] if len(parts) > 1 else parts[0])
+        rules.append(["start", ["alt", alts]])
+    else:
+        rules.append(["start", ["seq", [["nt", "pre"], ["nt", "s"], ["nt", "post"]]]])
+        rules.append(["pre", ["alt", [["lit", p] for p in pres]]])
+        rules.append(["post", ["alt", [["lit", p] for p in posts]]])
+    rules.append(["s", s_rhs])
+    if unit == ["nt", "u"]:
+        rules.append(["u", ["alt", [["lit", "a"], ["seq", [["lit", "a"], ["lit", "b"]]]]]])
+    return {"rules": rules, "mode": "text"}
+
+
 def build_case(ing: dict[str, Any]) -> dict[str, Any]:
     spec = ing["spec"]
     mode = spec["mode"]
     sem = S.Sem(spec)
-    maxlen = 6 if mode == "text" else 32
-    words = [S.word_to_input(w, mode) for w in sem.enumerate_words("start", max_len=maxlen, cap=200)
+    maxlen = 8 if mode == "text" else 32
+    words = [S.word_to_input(w, mode) for w in sem.enumerate_words("start", max_len=maxlen, cap=300)
              if mode == "text" or len(w) % 8 == 0]
     enum = []
     seen = set()
     if words:
-        if len(words) <= 25:
+        if len(words) <= 40:
             enum = list(words)
         else:
-            for i in ing["idx"]:
-                w = words[i % len(words)]
+            # half of the picks from the longest third (deep repetition nesting needs room)
+            long_ = words[2 * len(words) // 3:]
+            for n_, i in enumerate(ing["idx"]):
+                pool = long_ if n_ % 2 else words
+                w = pool[i % len(pool)]
                 if w not in seen:
                     seen.add(w)
                     enum.append(w)
@@ -98,7 +134,8 @@ def build_case(ing: dict[str, Any]) -> dict[str, Any]:
                 pass
     except Exception:
         pass
-    return {"spec": spec, "enum": [from_input(w) for w in enum], "gen": [from_input(w) for w in gen]}
+    return {"spec": spec, "enum": [from_input(w) for w in enum], "gen": [from_input(w) for w in gen],
+            "tree_seeds": list(ing["fuzz_seeds"])}
 
 
 def check_case(case: dict[str, Any], ctx: Any = None) -> list[str]:
@@ -125,6 +162,17 @@ def check_case(case: dict[str, Any], ctx: Any = None) -> list[str]:
                 if ctx is not None:
                     ctx.count("set_aside_non_greedy")
                 continue
+            if mode == "bin" and inp.isascii() and len(inp) % 2 == 0:
+                # one Fandango object serves str and bytes inputs (a text-only tree of a binary spec serialises to
+                # str): hand the same word in as text first - its outcome is not judged here (the tree-input block
+                # below judges text-only trees), only that the bytes parse afterwards is unaffected
+                try:
+                    with Fuel():
+                        list(itertools.islice(f.parse(inp.decode("ascii")), 2))
+                    if ctx is not None:
+                        ctx.count("text_form_parsed_first")
+                except (FuelExhausted, Exception):
+                    pass
             try:
                 with Fuel():
                     trees = list(itertools.islice(f.parse(inp), 12))
@@ -154,6 +202,40 @@ def check_case(case: dict[str, Any], ctx: Any = None) -> list[str]:
                 cl += [f"uses_{k}" for k in sorted(kinds & {"rx", "brx", "opt", "star", "plus", "rep", "openrep", "recursion"})]
                 ctx.case({"s": text, "w": ci}, interesting and len(units) >= 2, tuple(cl),
                          sample={"spec": text, "word": repr(inp), "source": src, "trees": len(trees)})
+    # the generated tree itself handed to parse(): Fandango serialises it (str for text-only trees, bytes
+    # otherwise - also inside one binary spec) and must get the same value back
+    for sd in case.get("tree_seeds", []):
+        random.seed(sd)
+        try:
+            t = f.grammar.fuzz("<start>", max_nodes=15)
+            as_bytes = t.should_be_serialized_to_bytes()
+            val = bytes(t) if as_bytes else str(t)
+        except Exception:
+            continue
+        if len(val) > (8 if not as_bytes else 4):
+            continue
+        units = S.tree_units(t, mode)
+        if not sem.recognise(units, "start", greedy=True):
+            continue
+        try:
+            with Fuel():
+                trees = list(itertools.islice(f.parse(t), 12))
+        except FuelExhausted:
+            continue
+        except Exception as e:
+            msgs.append(f"Fandango.parse(<generated tree {val!r}>) raised {type(e).__name__}: {e}")
+            continue
+        same = False
+        for r in trees:
+            try:
+                if (bytes(r) if as_bytes else str(r)) == val:
+                    same = True
+            except Exception:
+                pass
+        if not same:
+            msgs.append(f"the generated tree with value {val!r} is not parsed back by Fandango.parse(tree): {len(trees)} tree(s), none identical")
+        if ctx is not None:
+            ctx.count("tree_inputs")
     return msgs
 
 
